@@ -36,7 +36,7 @@ type IDPWorld struct {
 	Lookups  []Lookup
 	Session  *saml.Session // returned to every request; nil => "login form" (HTTP 200 with marker body)
 	// RegistryErr, when set, is returned for every lookup
-	RegistryErr error
+	RegistryErr     error
 	GetSessionCalls int
 }
 
